@@ -445,7 +445,7 @@ impl Iter {
                     if matches!(mode, Mode::FuncEntry | Mode::FuncExit) && plan.iter().any(|i: &Inj| i.func == raw.n_imp_funcs + f as u32 && matches!(i.mode, Mode::FuncEntry | Mode::FuncExit)) {
                         continue;
                     }
-                    plan.push(Inj { func: raw.n_imp_funcs + f as u32, at, mode, path: Path::Iter, uid, n_ops: 1, leading_drop: false });
+                    plan.push(Inj { func: raw.n_imp_funcs + f as u32, at, mode, path: Path::Iter, uid, n_ops: 1, leading_drop: false, probe: lower::Probe::Marker });
                     uid += 1;
                     any_inj = true;
                 }
